@@ -38,6 +38,10 @@ def _maxn(fam, tier):
 def _pick_n(rng, fam, tier):
     """Sizes biased towards the cheap ones (an exact fill costs ~n^4 big-integer operations)."""
     r = rng.random()
+    if r < 0.03:
+        # rare large sizes, beyond anything the suite requests (64-bit overflow territory: 21! > 2**63); the float
+        # Chebyshev family stops at 22, where its measured moment defect (4e-13) is still far below the 1e-11 bound
+        return rng.randint(16, 22 if fam == "chebyshev" else 26)
     if r < 0.6:
         return rng.randint(1, 6)
     if r < 0.9:
